@@ -846,6 +846,8 @@ class Emitter:
         if b == 32: return '(i64)(i32)%s' % e
         if b == 16: return '(i64)(i16)%s' % e
         if b == 8: return '(i64)(i8)%s' % e
+        if b == 1: return '(i64)(-(i64)%s)' % e
+        if b < 64: return '((i64)((i64)((u64)%s << %d) >> %d))' % (e, 64 - b, 64 - b)
         raise Exception('sx width %d' % b)
 
     def signed(s, e, t):
@@ -863,7 +865,7 @@ class Emitter:
         w = s.cbits(b)
         if w == b: return e
         # odd width: shift up and arithmetic shift down
-        raise Exception('odd width i%d' % b)
+        return '((i%d)((i%d)((u%d)%s << %d) >> %d))' % (w, w, w, e, w - b, w - b)
 
     def mask(s, e, t):
         rt = s.resolve(t)
@@ -901,11 +903,11 @@ class Emitter:
                 return s.mask('((u128)((i128)%s %s (i128)%s))' % (a, o, b), t)
             return s.mask('((u64)(%s %s %s))' % (s.sx(a, t), o, s.sx(b, t)), t)
         if bop == 'shl':
-            return s.mask('((%s)%s << %s)' % (ct if rt.bits >= 32 else 'u32', a, b), t) if rt.bits >= 32 else s.mask('vf_shl%d(%s,%s)' % (s.cbits(rt.bits), a, b), t)
+            return s.mask('((%s)%s << %s)' % (ct, a, b), t) if s.cbits(rt.bits) >= 32 else s.mask('vf_shl%d(%s,%s)' % (s.cbits(rt.bits), a, b), t)
         if bop == 'lshr':
-            return s.mask('((%s)%s >> %s)' % (ct if rt.bits >= 32 else 'u32', a, b), t) if rt.bits >= 32 else s.mask('vf_lshr%d(%s,%s)' % (s.cbits(rt.bits), a, b), t)
+            return s.mask('((%s)%s >> %s)' % (ct, a, b), t) if s.cbits(rt.bits) >= 32 else s.mask('vf_lshr%d(%s,%s)' % (s.cbits(rt.bits), a, b), t)
         if bop == 'ashr':
-            if rt.bits >= 32:
+            if s.cbits(rt.bits) >= 32:
                 return s.mask('((%s)(%s >> %s))' % (ct, s.signed(a, t), b), t)
             return s.mask('vf_ashr%d(%s,%s)' % (s.cbits(rt.bits), a, b), t)
         raise Exception('binop ' + bop)
